@@ -79,6 +79,17 @@ func (m *vMachine) genLockerOp(rt *rapid.T, i int) vOp {
 		op.A = rapid.SampledFrom([]string{"1", "12345"}).Draw(rt, lbl("amt"))
 		op.Asset = rapid.IntRange(0, 1).Draw(rt, lbl("which")) // 0 collector, 1 locker
 	}
+	switch op.K {
+	case "ldeposit", "lwithdraw", "lclose":
+		// a message is free to name the app and asset of another locker product than the one its locker belongs to
+		if len(cfg.Lockers) > 1 && rapid.IntRange(0, 11).Draw(rt, lbl("otherlocker")) == 0 {
+			q := rapid.IntRange(0, len(cfg.Lockers)-2).Draw(rt, lbl("q"))
+			if q >= op.L {
+				q++
+			}
+			op.Q = q + 1
+		}
+	}
 	return op
 }
 
@@ -95,15 +106,21 @@ func (m *vMachine) applyLocker(i int, op vOp) {
 		amt = mustInt(op.A)
 	}
 	var msg sdk.Msg
+	namedApp, namedAsset := app, asset.ID // what the message names
+	if op.Q > 0 && op.Q-1 < len(cfg.Lockers) {
+		other := cfg.Lockers[op.Q-1]
+		namedApp, namedAsset = m.apps[other.App], cfg.Assets[other.Asset].ID
+	}
+	mismatch := namedApp != app || namedAsset != asset.ID
 	switch op.K {
 	case "lcreate":
 		msg = lockertypes.NewMsgCreateLockerRequest(from.String(), amt, asset.ID, app)
 	case "ldeposit":
-		msg = lockertypes.NewMsgDepositAssetRequest(from.String(), l.LockerId, amt, asset.ID, app)
+		msg = lockertypes.NewMsgDepositAssetRequest(from.String(), l.LockerId, amt, namedAsset, namedApp)
 	case "lwithdraw":
-		msg = lockertypes.NewMsgWithdrawAssetRequest(from.String(), l.LockerId, amt, asset.ID, app)
+		msg = lockertypes.NewMsgWithdrawAssetRequest(from.String(), l.LockerId, amt, namedAsset, namedApp)
 	case "lclose":
-		msg = lockertypes.NewMsgCloseLockerRequest(from.String(), app, asset.ID, l.LockerId)
+		msg = lockertypes.NewMsgCloseLockerRequest(from.String(), namedApp, namedAsset, l.LockerId)
 	case "lcalc":
 		msg = lockertypes.NewMsgLockerRewardCalcRequest(from.String(), app, l.LockerId)
 	case "lsr":
@@ -137,6 +154,9 @@ func (m *vMachine) applyLocker(i int, op vOp) {
 	}
 	_, err := c.Deliver(msg)
 	if err != nil {
+		if mismatch {
+			m.r.Class("message-naming-another-locker-product:refused")
+		}
 		if debugErrs {
 			e := err.Error()
 			if len(e) > 60 {
@@ -144,6 +164,11 @@ func (m *vMachine) applyLocker(i int, op vOp) {
 			}
 			m.r.Class("err:" + op.K + ":" + e)
 		}
+		return
+	}
+	if mismatch {
+		// only the invariants (run by the caller) judge a message that names another product's app / asset
+		m.r.Class("message-naming-another-locker-product:accepted:" + op.K)
 		return
 	}
 	m.okKinds[op.K]++
